@@ -96,7 +96,7 @@ Proof.
       pose proof (core_tmp_prep t o) as Hc1; pose proof (wtc_tmp_prep t o) as Hw1;
       set (t1 := tmp_prep t o) in *
   end.
-  destruct (apply3way _ _ _); [discriminate|].
+  destruct (apply3way _ _ _ _); [discriminate|].
   assert (Ho : t_opts (set_tmp t1 None (t_tmp_content t1)) = t_opts t).
   { apply wtc_inv in Hw1. destruct Hw1 as [Ho _]. exact Ho. }
   rewrite Ho, Hallow in H. cbn [negb] in H.
@@ -119,7 +119,7 @@ Proof.
   | context[tmp_prep ?t ?o] =>
       pose proof (wtc_tmp_prep t o) as Hw1; set (t1 := tmp_prep t o) in *
   end.
-  destruct (apply3way _ _ _); [discriminate|].
+  destruct (apply3way _ _ _ _); [discriminate|].
   assert (Ho : t_opts (set_tmp t1 None (t_tmp_content t1)) = t_opts t).
   { apply wtc_inv in Hw1. destruct Hw1 as [Ho _]. exact Ho. }
   rewrite Ho in H.
@@ -635,6 +635,14 @@ Section Refuse.
     rewrite Hu1. exact Hr.
   Qed.
 
+  Lemma run_squash_refused : forall r nm meta msg, refused w (run_squash w r nm meta msg).
+  Proof.
+    intros r nm meta msg. unfold run_squash.
+    destruct (parse_ranges r); [|apply refused_x1].
+    destruct (from_str nm); [|apply refused_x1].
+    opened op Hr Hu1. rewrite Hu1. exact Hr.
+  Qed.
+
   Lemma run_delete_refused : forall r tp al fa fu fh sp cf,
       refused w (run_delete w r tp al fa fu fh sp cf).
   Proof.
@@ -736,7 +744,8 @@ Proof.
     - apply run_float_refused; assumption.
     - apply run_sink_refused; assumption.
     - apply run_delete_refused; assumption.
-    - apply run_spill_refused; assumption. }
+    - apply run_spill_refused; assumption.
+    - apply run_squash_refused; assumption. }
   destruct (step lower_s w c) as [w' x]. exact H.
 Qed.
 
